@@ -24,7 +24,7 @@ COMPONENTS = {"real": ["six parse entry points + plugins", "both serializer inte
 ASSUMPTIONS = ["RDF 1.1 content only; datatypes from a private namespace plus xsd:string so that rdflib's lexical "
                "normalisation cannot differ from the generic integration", "set-like containers compared as sets; "
                "container inputs are fed to the generic side in the order rdflib iterates them"]
-PROBES = ["parse_runs", "write_runs", "model_streams", "real_streams", "physical_GRAPHS", "physical_QUADS",
+PROBES = ["grouped_inputs", "first_group_empty", "parse_runs", "write_runs", "model_streams", "real_streams", "physical_GRAPHS", "physical_QUADS",
           "container_inputs", "generator_inputs"]
 SHRINK_LISTS = ["ops", "items"]
 
@@ -36,7 +36,7 @@ def generate(rng, run, tier):
         plan["source"] = "model"
     else:
         physical = rng.choice(["TRIPLES", "QUADS", "GRAPHS"])
-        entry = rng.choice(["frames_gen", "frames_sink", "flat_file", "container_serialize"])
+        entry = rng.choice(["frames_gen", "frames_sink", "flat_file", "container_serialize", "grouped_file"])
         if physical == "GRAPHS" and entry == "flat_file":
             physical = "QUADS"
         stmts, flags, sizes, pools = c01.gen_workload(rng, physical, rdflib_safe=True, max_n=20)
@@ -46,6 +46,16 @@ def generate(rng, run, tier):
         cfg = nodes.default_cfg(integration="generic", physical=physical, logical=1 if physical == "TRIPLES" else 2,
                                 delimited=True, frame_size=rng.choice([1, 3, 250]), max_names=mn, max_prefixes=mp,
                                 max_datatypes=md, generalized=False, rdf_star=False, entry=entry)
+        if entry == "grouped_file":
+            if physical == "GRAPHS":
+                cfg["physical"] = physical = "QUADS"
+                cfg["max_prefixes"] = cfg["max_prefixes"] and min(4096, cfg["max_prefixes"] + 1)   # graph IRI joins the row
+                cfg["max_names"] = min(4096, cfg["max_names"] + 1)
+            cfg["logical"] = rng.choice([3, 13] if physical == "TRIPLES" else [4, 14])
+            groups = c01.split_groups(rng, len(stmts))
+            if rng.random() < 0.4:
+                groups.insert(rng.choice([0, 0, len(groups)]), 0)       # an empty graph/dataset, often the first
+            cfg["groups"] = groups
         plan = {"cfg": cfg, "ops": [["stmt", *T.to_json(st)] for st in stmts], "source": "real"}
     plan["kind"] = kind
     plan["frontends"] = [rng.choice(["bytesio", "raw", "buffered", "seekable_buffered", "gzip"]) for _ in range(8)]
@@ -139,6 +149,8 @@ def write_side(plan, sim):
     held = [raw_as_rdflib_holds(st) for st in stmts]
     if not stmts:
         return [], None
+    if entry == "grouped_file":
+        return grouped_write_side(plan, sim, cfg_g, cfg_r, stmts)
     if entry in ("frames_sink", "container_serialize") and cfg_g["physical"] == "GRAPHS" \
             and not any(st[3] == T.DEFAULT for st in stmts):
         # an rdflib Dataset always has a default graph and writes it even when empty; a sequence of quads
@@ -196,6 +208,55 @@ def write_side(plan, sim):
                          f"{[i for i in rg.items][:3]!r} rdflib order {[i for i in rr.items][:3]!r}"})
     key = (repr(sorted(cfg_g.items())), repr(stmts)) if len(stmts) >= 2 else None
     return v, key
+
+
+def grouped_write_side(plan, sim, cfg_g, cfg_r, stmts):
+    """Both integrations write the same sequence of graphs/datasets through grouped_stream_to_file."""
+    import rdflib
+    sim.count("grouped_inputs")
+    groups = cfg_g["groups"]
+    conts_r, conts_g = [], []
+    pos = 0
+    for n in groups:
+        chunk = stmts[pos:pos + n]
+        pos += n
+        cr = nodes.make_container(cfg_r, chunk, [])
+        if isinstance(cr, rdflib.Dataset):
+            order = [(T.from_rdflib_raw(s), T.from_rdflib_raw(p), T.from_rdflib_raw(o),
+                      T.from_rdflib_raw(g, graph_slot=True)) for s, p, o, g in cr.quads()]
+        else:
+            order = [tuple(T.from_rdflib_raw(x) for x in t) for t in cr]
+        conts_r.append(cr)
+        conts_g.append(nodes.make_container(cfg_g, order, []))
+    if groups and groups[0] == 0:
+        sim.count("first_group_empty")
+    outs = {}
+    try:
+        for name, cfg, conts in (("generic", cfg_g, conts_g), ("rdflib", cfg_r, conts_r)):
+            out = io.BytesIO()
+            nodes.integ_mod(cfg).grouped_stream_to_file((c for c in conts), out, options=nodes.make_options(cfg))
+            outs[name] = out.getvalue()
+    except Exception as e:  # noqa: BLE001
+        return [{"clause": "C15.serialize_raised", "sig": {"exc": type(e).__name__},
+                 "msg": f"grouped write: {type(e).__name__}: {e}"}], None
+    v = []
+    if outs["generic"] != outs["rdflib"]:
+        fg = len(wire_frames(outs["generic"]))
+        fr = len(wire_frames(outs["rdflib"]))
+        v.append({"clause": "C15.serializers_differ", "sig": {"physical": cfg_g["physical"], "input": "grouped",
+                                                            "same_statements": None},
+                  "msg": f"grouped write of {groups} statements per input: generic {len(outs['generic'])} bytes in {fg} "
+                         f"frames, rdflib {len(outs['rdflib'])} bytes in {fr} frames"})
+    key = (repr(sorted(cfg_g.items(), key=str)), repr(stmts)) if len(stmts) >= 2 else None
+    return v, key
+
+
+def wire_frames(data):
+    from simkit import wire
+    try:
+        return wire.split_delimited(data)
+    except wire.WireError:
+        return []
 
 
 def serialize_container(cfg, cont):
